@@ -51,16 +51,31 @@ class _Prune(Flow):
                 v = self._prune_var(inner)
                 if v is not None:
                     others = [p for p in s.test.values if p is not part]
-                    # the remaining conjuncts may only test queue membership of the same node
-                    if all(
-                        isinstance(o, ast.Compare)
-                        and len(o.ops) == 1
-                        and isinstance(o.ops[0], ast.In)
-                        and isinstance(o.left, ast.Name)
-                        and o.left.id == v
-                        and self.prog.resolve_in(o.comparators[0], self.f) == wsa.QUE
-                        for o in others
-                    ):
+                    # the remaining conjuncts may only (a) test queue membership of the same node, or
+                    # (b) exempt a node for which the withdrawn element was *executing* (flag = `elem in X.get('doing')`
+                    # taken before the removal): that node has a reply outstanding and complete() prunes it then
+                    def _ok(o):
+                        if (
+                            isinstance(o, ast.Compare)
+                            and len(o.ops) == 1
+                            and isinstance(o.ops[0], ast.In)
+                            and isinstance(o.left, ast.Name)
+                            and o.left.id == v
+                            and self.prog.resolve_in(o.comparators[0], self.f) == wsa.QUE
+                        ):
+                            return True
+                        if isinstance(o, ast.UnaryOp) and isinstance(o.op, ast.Not) and isinstance(o.operand, ast.Name):
+                            defs = [
+                                a.value
+                                for a in self.f.own_nodes()
+                                if isinstance(a, ast.Assign) and any(isinstance(t, ast.Name) and t.id == o.operand.id for t in a.targets)
+                            ]
+                            return len(defs) == 1 and isinstance(defs[0], ast.Compare) and len(defs[0].ops) == 1 and isinstance(defs[0].ops[0], ast.In) and (
+                                (gk := get_key(defs[0].comparators[0])) is not None and gk[1] == 'doing' and isinstance(gk[0], ast.Name) and gk[0].id == v
+                            ) and defs[0].lineno < s.lineno
+                        return False
+
+                    if all(_ok(o) for o in others):
                         return v
         return None
 
